@@ -39,18 +39,29 @@ let show_store (st : store) : string =
   ^ ";vp=" ^ (match st.s_vp with None -> "-" | Some l -> "[" ^ String.concat "," (List.map (function None -> "n" | Some v -> hex_of_n v) l) ^ "]")
   ^ ";at=" ^ String.concat "|" (List.map (fun (k, v) -> show k ^ "=" ^ hex_of_bytes v) st.s_att)
 
+(* starting document: "ver" (generated PDF without Info and XMP) or
+   "ver|hasinfo|infokw|xmp": infokw "-" or a string; xmp "-" (no /Metadata), "n" (packet
+   without pdf:Keywords) or the pdf:Keywords text *)
+let init_of (s : string) : doc =
+  match String.split_on_char '|' s with
+  | [v] -> empty_doc (n_of_hex v)
+  | [v; h; kw; x] ->
+    init_doc (n_of_hex v) (h = "1") (if kw = "-" then None else Some (str_of kw))
+      (if x = "-" then None else if x = "n" then Some None else Some (Some (str_of x)))
+  | _ -> failwith ("bad init " ^ s)
+
 let dispatch fn args = match fn, args with
-  | "hist", ver :: ops ->
+  | "hist", init :: ops ->
     let h = List.map op_of ops in
-    let v = n_of_hex ver in
-    let d = run_from_empty v h in
-    "st=" ^ str_of_bool (last_ok_from_empty v h) ^ ";" ^
+    let d0 = init_of init in
+    let d = run d0 h in
+    "st=" ^ str_of_bool (last_ok d0 h) ^ ";" ^
     (match observe d with None -> "bad" | Some st -> show_store st)
-  | "spec", ver :: ops ->
+  | "spec", init :: ops ->
     (* the abstract store, only asked for histories whose inputs are well formed *)
     let h = List.map op_of ops in
-    let v = n_of_hex ver in
-    if List.for_all wf_op h && fresh_adds h (empty_store v) then show_store (arun (empty_store v) h) else "notwf"
+    let s0 = init_store (init_of init) in
+    if List.for_all wf_op h && fresh_adds h s0 then show_store (arun s0 h) else "notwf"
   | "kwtext", [s] -> String.concat "|" (List.map show (kw_of_text (str_of s)))
   | "encname", [s] -> show (encode_name (str_of s))
   | "decname", [s] -> (match decode_name (str_of s) with None -> "err" | Some t -> show t)
